@@ -52,6 +52,24 @@ pub struct BlockInfo {
     pub(crate) parent: BlockId,
 }
 
+#[cfg(feature = "verif-hooks")]
+impl BlockInfo {
+    /// Verification hook: builds a [`BlockInfo`] from its parts.
+    pub fn verif_new(hash: BlockHash, parent: BlockId) -> Self {
+        Self { hash, parent }
+    }
+
+    /// Verification hook: hash of the block.
+    pub fn verif_hash(&self) -> &BlockHash {
+        &self.hash
+    }
+
+    /// Verification hook: parent of the block.
+    pub fn verif_parent(&self) -> &BlockId {
+        &self.parent
+    }
+}
+
 impl From<&Block> for BlockInfo {
     fn from(block: &Block) -> Self {
         BlockInfo {
